@@ -39,13 +39,17 @@ Contract (deal ``ensure`` on a sidecar wrapper installed on ``CombinatorialSpeci
 """
 import contextlib
 import multiprocessing
+import random
 import signal
+import sys
+import zlib
 from collections import Counter
 
 import deal
 
 import comb_spec_searcher.rule_db.forest as forest_mod
 import comb_spec_searcher.specification as spec_mod
+import comb_spec_searcher.tree_searcher as tree_searcher
 from comb_spec_searcher import CombinatorialSpecificationSearcher
 from comb_spec_searcher import StrategyFactory, StrategyPack, VerificationStrategy
 from comb_spec_searcher.exception import InvalidOperationError, SpecificationNotFound, StrategyDoesNotApply
@@ -86,6 +90,38 @@ def _note(check, what):
 
 def truly_empty(cls: Av) -> bool:
     return not brute_objects(cls, len(cls.prefix))
+
+
+# deterministic clock / random source for every searcher of a case (harness process only)
+CSS_MODULE = sys.modules[CombinatorialSpecificationSearcher.__module__]
+SEED = [0]
+
+
+class FakeClock:
+    """One millisecond per reading made in `_expand_classes_for` (`eager`) or per reading (`coarse`)."""
+
+    def __init__(self, mode):
+        self.mode = mode
+        self.ticks = 0
+
+    def time(self):
+        if self.mode == "coarse" or sys._getframe(1).f_code.co_name == "_expand_classes_for":
+            self.ticks += 1
+        return self.ticks * 0.001
+
+
+@contextlib.contextmanager
+def clock(seed):
+    real = CSS_MODULE.time
+    rng = random.Random(seed)
+    saved = tree_searcher.choice, tree_searcher.shuffle, tree_searcher.time
+    CSS_MODULE.time = FakeClock("eager")
+    tree_searcher.choice, tree_searcher.shuffle, tree_searcher.time = rng.choice, rng.shuffle, FakeClock("coarse")
+    try:
+        yield
+    finally:
+        CSS_MODULE.time = real
+        tree_searcher.choice, tree_searcher.shuffle, tree_searcher.time = saved
 
 
 # --------------------------------------------------------------------------------------------------------------
@@ -438,6 +474,8 @@ def run_case(case):
 
     old = signal.signal(signal.SIGALRM, _alarm)
     signal.alarm(TIMEOUT)
+    stack = contextlib.ExitStack()
+    stack.enter_context(clock(zlib.crc32(repr(case).encode()) ^ SEED[0]))
     try:
         spec = find_spec(start, PACKS[pack_name](), RULEDBS[db]())
         silence()
@@ -488,9 +526,11 @@ def run_case(case):
     finally:
         signal.alarm(0)
         signal.signal(signal.SIGALRM, old)
+        stack.close()
 
 
-def _worker(cases):
+def _worker(args):
+    cases, SEED[0] = args
     silence()
     COUNTS.clear()
     viols, infos = [], []
@@ -529,7 +569,7 @@ def run(tier, seed):
     chunks = [cases[i::nchunks] for i in range(nchunks)]
     ctx = multiprocessing.get_context("fork")
     with ctx.Pool(NPROC) as pool:
-        results = pool.map(_worker, chunks, chunksize=1)
+        results = pool.map(_worker, [(c, seed) for c in chunks], chunksize=1)
     counts = Counter()
     viols, infos = [], []
     for v, i, c in results:
